@@ -203,6 +203,19 @@ func seq(xs ...*lang.Node) *lang.Node { return &lang.Node{K: "seq", Kids: xs} }
 // configured maximum: += in loops, string(x) of containers, format with
 // width, bytes(n), keys made from non-string indexes.
 func (g *G) stringTemplate(id int, n func(string) string) *lang.Node {
+	if g.chance(120, "strLongLit") {
+		// a literal (or map-literal key) around the configured maxima
+		g.feat("tpl:long-literal")
+		k := []int{30, 31, 32, 33, 63, 64, 65, 99, 100, 101, 999, 1000, 1001}[g.draw(13, "litLen")]
+		lit := strings.Repeat("x", k)
+		name := n("ll")
+		if g.chance(300, "litKey") {
+			g.declare(&vinfo{name: name, t: TMap})
+			return lang.Define(name, lang.Map([]string{lit}, []*lang.Node{lang.Int(1)}))
+		}
+		g.declare(&vinfo{name: name, t: TStr})
+		return lang.Define(name, lang.Str(lit))
+	}
 	switch g.weighted("strTpl", 6, 4, 4, 3, 3, 3, 3) {
 	case 0:
 		g.feat("tpl:string-growth-loop")
